@@ -19,7 +19,9 @@ Definition tables_ok (d : db float) (expect : seq (string * seq float)) : bool :
 PCA_FIELDS = ["colaverage", "colscaling", "varexp", "scores", "loadings"]
 PLS_V = ["xcolscaling", "xcolaverage", "ycolscaling", "ycolaverage", "xvarexp", "b"]
 PLS_M = ["xscores", "xloadings", "xweights", "yscores", "yloadings", "recalculated_y", "recalc_residuals", "predicted_y", "pred_residuals",
-         "r2y_recalculated", "r2y_validation", "q2y", "sdep", "sdec", "bias", "yscrambling"]
+         "r2y_recalculated", "r2y_validation", "q2y", "sdep", "sdec", "bias", "yscrambling",
+         "roc_auc_recalculated", "roc_auc_validation", "precision_recall_ap_recalculated", "precision_recall_ap_validation"]
+PLS_T = ["roc_recalculated", "roc_validation", "precision_recall_recalculated", "precision_recall_validation"]
 
 
 def ser_matrix(M, shape):
@@ -39,6 +41,12 @@ def fields_of(kind, o, pre):
             out[f] = list(o["%s.%s" % (pre, f)])
         for f in PLS_M:
             out[f] = ser_matrix(o["%s.%s" % (pre, f)], o["%s.%s.shape" % (pre, f)])
+        for f in PLS_T:
+            k = o["%s.%s.order" % (pre, f)]
+            s = [float(k)]
+            for j in range(k):
+                s += ser_matrix(o["%s.%s.%d" % (pre, f, j)], o["%s.%s.%d.shape" % (pre, f, j)])
+            out[f] = s
     else:
         for f in ("scaling_factor", "total_expvar"):
             out[f] = list(o["%s.%s" % (pre, f)])
